@@ -33,6 +33,16 @@ def rnd_features(seq, rng, nmax=4, cites=0, marks=()):
     return feats
 
 
+def cited_inside(spec, frag_start, frag_len, rng, nref):
+    """a feature lying inside the retained fragment that cites one or two references of its record"""
+    n = len(spec["seq"])
+    L = rng.randint(1, max(1, min(frag_len, 6)))
+    a = (frag_start + rng.randint(0, frag_len - L)) % n
+    parts = [[a, a + L]] if a + L <= n else [[a, n], [0, a + L - n]]
+    return {"type": "CDS", "strand": rng.choice([1, -1]), "parts": parts, "quals": {"label": ["cited%d" % rng.randrange(1000)]},
+            "cites": sorted(rng.sample(range(1, nref + 1), rng.randint(1, min(2, nref))))}
+
+
 def case_recipe(G, espec, rng, nmods, annotate=False, refs=False, rotate=True, shuffle=True, extra_unused=0):
     c = G.case(rng, nmods)
     if c is None:
@@ -47,23 +57,33 @@ def case_recipe(G, espec, rng, nmods, annotate=False, refs=False, rotate=True, s
             nref = rng.randint(0, 3)
             # references are distinct within one record (a shared one may appear in several records)
             spec["refs"] = ["ref-%s-%d" % (name, i) for i in range(nref)]
-            if nref and rng.random() < 0.4:
+            if nref and rng.random() < 0.6:
                 spec["refs"][rng.randrange(nref)] = shared[0]
             if nref == 0 and rng.random() < 0.5:
                 spec.pop("refs")          # no reference list at all (equivalent to an empty one)
         if annotate:
             # fragment boundaries in the rotated coordinates, to place features on them
-            marks = []
-            up = c["overhangs"]
             spec["feats"] = rnd_features(s2, rng, cites=len(spec.get("refs", [])) if refs else 0,
                                          marks=[(i + k) % len(s) for i in (0, len(s) // 2, len(G.site) + G.off)])
+            if refs and spec.get("refs"):
+                # at least one cited feature inside the retained fragment of every input that has references
+                idx = len(specs)
+                if idx == 0:
+                    fs, fl = (2 * G.ovh + 2 * G.off + 2 * len(G.site) + len(c["placeholder"]) - G.ovh) , G.ovh + len(c["backbone"])
+                else:
+                    fs, fl = len(G.site) + G.off, G.ovh + len(c["targets"][idx - 1])
+                spec["feats"].append(cited_inside(spec, (fs + k) % len(s), fl, rng, len(spec["refs"])))
         specs.append(spec)
     mods = specs[1:]
     for j in range(extra_unused):
         ov = G.overhangs(2, rng)
         u = G.module(ov[0], gen.rnd(4, rng), ov[1], gen.rnd(3, rng), rng)
         if u and ov[0] not in c["overhangs"] and dna.rc(ov[0]) not in c["overhangs"]:
-            mods.append({"id": "u%d" % j, "seq": u})
+            uspec = {"id": "u%d" % j, "seq": u}
+            if refs:          # an unused module carrying citations of its own
+                uspec["refs"] = ["ref-u%d-0" % j, "ref-u%d-1" % j]
+                uspec["feats"] = [cited_inside(uspec, len(G.site) + G.off, G.ovh + 4, rng, 2)]
+            mods.append(uspec)
     if shuffle:
         rng.shuffle(mods)
     return {"fn": "assemble", "enz": espec, "vector": specs[0], "modules": mods, "id": "prod", "name": "prod",
@@ -161,6 +181,17 @@ def twin_assemblies(run, by):
             r["modules"].append(dict(r["modules"][0], id="dup"))
         r["twin"] = {"by": by, "args": twin_args(r, by, rng)}
         recipes.append(r)
+    if by == "case":      # a vector whose two overhangs coincide must be refused in every spelling
+        for espec, G in tc.geometries():
+            if rng.random() < (0.7 if q else 0.0):
+                continue
+            ov = G.overhangs(2, rng)
+            v = G.vector(ov[0], ov[0], gen.rnd(3, rng, G.safe), gen.rnd(5, rng, G.safe), rng)
+            m = G.module(ov[0], gen.rnd(4, rng, G.safe), ov[1], gen.rnd(3, rng, G.safe), rng)
+            if v and m:
+                n = 1 + 1
+                recipes.append({"fn": "assemble", "enz": espec, "vector": {"id": "vec", "seq": v}, "modules": [{"id": "m1", "seq": m}],
+                                "id": "p", "name": "p", "twin": {"by": "case", "args": ["".join(rng.choice("01") for _ in range(23)), "0"]}})
     validate(run, "assemblies-%s" % by, recipes)
 
 
